@@ -18,6 +18,8 @@ REQUIRED_THEOREMS = [
     "C01.initial_idle",
     "C01.pre_dispatch_zero_counterexample",
     "C01.auto_batch_size_ge_one",
+    "C01.auto_batch_size_ge_one_across_calls",
+    "C01.auto_batch_size_ignores_call_inputs",
     "C01.sequential_return_correct",
     "C01.sequential_exactly_once",
     "C01.sequential_leaves_idle",
@@ -57,6 +59,10 @@ TRUSTED_EXTRA = [
     "M1L (lean/JoblibModel/ParallelLock.lean, theorems M1L.*): a second, small-step, multi-threaded model of the same protocol; one atomic step = the code of one thread between two scheduling points (outermost acquire/release of Parallel._lock, a backend call, time.sleep, an unlocked access to _aborting/_exception/_iterating/_original_iterator/n_dispatched_tasks/n_completed_tasks/_jobs/tracker status), any number of callback threads, every interleaving; scope: one call on a fresh object, ordered modes, no timeout; tied to the code by step-log equality of forced real-thread schedules (instrumented lock, controllable backend, descriptor-instrumented shared attributes, no line numbers); assumed: threading.RLock mutual exclusion, atomicity of a single attribute load/store under the GIL; accesses to attributes outside the list and the input iterator's __next__ are atomic with their segment; termination under the drain schedule (completions, then callbacks, then the caller) is PROVED from every reachable state with an explicit bound (quiescent_termination*, measure 1300*W+100*P+100*L+R); termination under other fair schedules is not stated",
     "M1 granularity: completion callbacks are atomic and happen at hook points of the caller (configure, compute_batch_size, sleep, consumer "
     "pauses, inside backend.abort_everything, between two calls and after the last one); interleavings inside a callback or between two bytecodes of the caller are not in the model",
+    "oracle-only (not in the Lean model M1, judged by the sequential-loop oracle and the wait-predicate probe): completion callbacks "
+    "delivered INSIDE backend.submit (the batch's own callback, or earlier batches', re-entrantly under Parallel._lock, from the "
+    "caller's and from a callback's dispatch); batch sizes computed by the real AutoBatchingMixin attached to the real Parallel "
+    "object over several calls (these sizes ARE compared with the Lean model of the mixin, JoblibModel/AutoBatch.lean)",
     "modelled, not verified: the backend contract (each submitted batch executed at most once, its callback invoked at most once), "
     "threading.RLock, itertools.islice, queue.Queue, collections.deque, pickling of batches to worker processes",
 ]
